@@ -1889,6 +1889,15 @@ func TestVerifC20(t *testing.T) {
 			nPlain, nGated, nOver, nBurst, nRereg, nConc, nUnbal = 1500, 1500, 30, 30, 300, 500, 600
 		}
 		id := 0
+		// listener changes inside the dispatch of one message; forced schedules on the locks
+		// (ids from 8000000; directed and deterministic whatever the map order, so they come
+		// first: the replay the driver reports is the first failing case)
+		reps := 2
+		if env.thorough() {
+			reps = 12
+		}
+		cases = append(cases, c20DirectedLate(8000000, reps)...)
+		cases = append(cases, c20DirectedLockGate(8100000)...)
 		// calls that change nothing (directed, then seeded); ids from 6000000 so that the seeded
 		// streams of the other generators stay what they were
 		ub := c20DirectedUnbalanced(6000000)
@@ -1933,14 +1942,6 @@ func TestVerifC20(t *testing.T) {
 			pid := 7001000 + i
 			cases = append(cases, c20GenPoolMixed(newVrng(env.seed, uint64(pid)), pid))
 		}
-		// listener changes inside the dispatch of one message; forced schedules on the locks
-		// (ids from 8000000)
-		reps := 2
-		if env.thorough() {
-			reps = 12
-		}
-		cases = append(cases, c20DirectedLate(8000000, reps)...)
-		cases = append(cases, c20DirectedLockGate(8100000)...)
 	}
 	t0 := time.Now()
 	poolTargets := 0
